@@ -11,3 +11,46 @@ impl<T> Mutex<T> {
         ensures final(w).lock_held,
     { unimplemented!() }
 }
+
+// ---- whole handle_htlc --------------------------------------------------------------------------
+impl Clone for messages::TrampolineInfo {
+    #[verifier::external_body]
+    fn clone(&self) -> (r: Self) ensures r == *self { unimplemented!() }
+}
+pub mod tokio {
+    // under E2 the spawned future has already been evaluated to its (unit) value by the stub of
+    // payment_lifecycle; spawning is the hand-over to the scheduler (not under contract)
+    #[verifier::external_body]
+    pub fn spawn<T>(t: T) { unimplemented!() }
+}
+/// the table: `entry(k).or_insert_with(f)` yields the entry of `k`, creating it with `f()`.
+/// Data-structure invariant (assumed, listed): every entry in the table satisfies the
+/// representation invariant ps_inv with its ghost view -- entries are only created by
+/// PaymentState::new and only changed by add_htlc / fail / resolve, which preserve it (unit paystate).
+pub struct Entry<'a> { pub _p: core::marker::PhantomData<&'a mut PaymentState> }
+impl MutexGuard<HashMap<Hash, PaymentState>> {
+    #[verifier::external_body]
+    fn entry<'a>(&'a mut self, k: Hash) -> (r: Entry<'a>) { unimplemented!() }
+}
+impl<'a> Entry<'a> {
+    #[verifier::external_body]
+    fn or_insert_with<'b, F: FnOnce() -> PaymentState>(self, f: F, Tracked(g): Tracked<&'b mut G>) -> (r: &'a mut PaymentState)
+        requires call_requires(f, ()),
+            // #new_entries_are_blank_and_valid [C06,C03]: what the closure builds is a valid blank entry
+            forall|p: PaymentState| call_ensures(f, (), p) ==> ps_inv(p, blank_g()),
+        ensures ps_inv(*r, *final(g)), final(g).via_listener == old(g).via_listener, final(g).incoming == old(g).incoming,
+            // input validity assumption (listed): the held total plus the incoming HTLC fits in 64 bits
+            sum_held(final(g).held) + final(g).incoming as int <= u64::MAX as int,
+    { unimplemented!() }
+}
+spec fn blank_g() -> G { G { ready_q: Seq::empty(), fail_q: Seq::empty(), held: Seq::empty(), ever_ready_sent: false, via_listener: false, incoming: 0 } }
+// the hook call's own oneshot: under E2 `receiver.await` is the receiver itself; the value it
+// yields is what was sent on the paired sender. Liveness assumption (listed, C06's eventually-clause
+// is not applicable): a listener that was handed to add_htlc is eventually answered.
+impl oneshot::Receiver<messages::HtlcAcceptedResponse> {
+    #[verifier::external_body]
+    pub fn context(self, c: &'static str, Tracked(g): Tracked<&mut G>) -> (r: crate::anyhow::Result<messages::HtlcAcceptedResponse>)
+        ensures r is Ok, Some(r->Ok_0) == self.will_receive(),
+            *final(g) == (G { via_listener: true, ..*old(g) }),
+    { unimplemented!() }
+}
